@@ -35,7 +35,7 @@ ASSUMPTIONS = [
     'reversed TIF files whose first next-word is 0x100 or 0x10000 are excluded (two byte orders indistinguishable)',
     'no stored-byte fault: the statement is about files written conformantly',
 ]
-PROBES = ['file_object_mode_attribute', 'writer_starts_past_zero', 'checksum_boundary_value', 'two_readers_interleaved', 'record_number_wraps', 'read_ends_at_pr_boundary', 'read_ends_at_record_boundary', 'skip_across_ge2_pr', 'seek_back_after_eof', 'seek_partial_seek_same',
+PROBES = ['path_and_separate_file_id', 'file_object_mode_attribute', 'writer_starts_past_zero', 'checksum_boundary_value', 'two_readers_interleaved', 'record_number_wraps', 'read_ends_at_pr_boundary', 'read_ends_at_record_boundary', 'skip_across_ge2_pr', 'seek_back_after_eof', 'seek_partial_seek_same',
           'payload_lt_one_pr', 'pr_with_1_byte', 'tif_reversed', 'tif_normal', 'none_at_record_end', 'run_on_into_next', 'eof_reached',
           'foreign_chunking', 'written_reread', 'strip_tif', 'seek_cur', 'tell_checked', 'all_trailers']
 
@@ -91,6 +91,8 @@ def generate(seed, tier):
     sc = {'world': 'lis_phys', 'model': model, 'ops': gen_ops(rng, model), 'reread_written': rng.chance(0.5)}
     if sc_prefix is not None:
         sc['writer_prefix'] = sc_prefix
+    if 'writer_prefix' not in sc and rng.chance(0.06):
+        sc['path_label'] = rng.pick(['WELL 7 RUN 2', 'well.lis', 'lis', 'out'])   # files given by path, with an identifier that is not the path
     if rng.chance(0.15):
         sc['mode_attr'] = rng.pick(['rb', 'r', 1, 'rb+'])      # what the file object's mode attribute says (zip members: 'r', gzip: an integer)
     if rng.chance(0.2):
@@ -181,6 +183,52 @@ def drive_writer(res, model, prefix=None):
     return got, lay
 
 
+def path_round_trip(res, model, lay, written, label):
+    """Writer and reader given a PATH and, separately, an identifier for messages (theFileId) that is not the path: the records
+    go to, and come from, the file at the path."""
+    import os
+    import shutil
+    from sim import build as simbuild
+    res.probe('path_and_separate_file_id')
+    res.op('write_path')
+    d = os.path.join(simbuild.scratch_root(), f'tdsim-{os.getpid()}', 'c05')
+    shutil.rmtree(d, ignore_errors=True)
+    os.makedirs(d)
+    cwd = os.getcwd()
+    os.chdir(d)
+    try:
+        path = os.path.join(d, 'out', 'well.lis')
+        os.makedirs(os.path.dirname(path))
+        has_tif = model['tif'] != 'none'
+        try:
+            w = File.FileWrite(path, label, False, has_tif, model['prlen'], _tail(model))
+            for rec in lay['records']:
+                w.write(rec['payload'])
+            w.close()
+        except Exception as err:
+            res.violation('write-exception', f'writing to a path with theFileId={label!r}: {type(err).__name__}: {err}', exc=type(err).__name__, tif=model['tif'], on_path=True)
+            return
+        stray = sorted(n for n in os.listdir(d) if n != 'out')
+        got = open(path, 'rb').read() if os.path.exists(path) else None
+        mask = list(lay['mask']) + [(p_, 2) for p_ in lay['chk_pos']]
+        if got is None or len(got) != len(written) or L.masked(got, mask) != L.masked(written, mask):
+            res.violation('write-layout', f'FileWrite(path, theFileId={label!r}): the file at the path holds {None if got is None else len(got)} bytes, the same records '
+                          f'written to a file object give {len(written)}; other files created in the working directory: {stray}', tif=model['tif'],
+                          rec=model['rec'], file=model['file'] is not None, chk=model['chk'], on_path=True)
+            return
+        try:
+            rd = File.FileRead(path, label, False)
+            for i, rec in enumerate(lay['records']):
+                if rd.readLrBytes() != rec['payload']:
+                    res.violation('reread-mismatch', f'FileRead(path, theFileId={label!r}): record {i} differs from what was written to that path', mode='path')
+                    break
+        except Exception as err:
+            res.violation('reread-exception', f'FileRead(path, theFileId={label!r}): {type(err).__name__}: {err}', exc=type(err).__name__, on_path=True)
+    finally:
+        os.chdir(cwd)
+        shutil.rmtree(d, ignore_errors=True)
+
+
 def check_reread_written(res, written, lay, positions_ok=True):
     """What was written is what is read: whole-record reads in order, then seek to every record start in reverse."""
     res.probe('written_reread')
@@ -253,6 +301,8 @@ def execute(scenario):
             res.probe('pr_with_1_byte')
     # (1) writer
     written, wlay = drive_writer(res, model, scenario.get('writer_prefix'))
+    if scenario.get('path_label') and written is not None:
+        path_round_trip(res, model, wlay, written, scenario['path_label'])
     if written is not None and scenario.get('reread_written'):
         check_reread_written(res, written, wlay)
     # (3) strip_tif
